@@ -98,6 +98,9 @@ pub struct Case {
     pub entry: String,
     /// discriminating input feature used in signatures (coarse, per entry)
     pub feature: String,
+    /// operator the feature describes; a contradiction at any other node of a
+    /// chain gets the feature "general". None: applies to every node.
+    pub feature_op: Option<String>,
     pub nodes: Vec<Node>,
     pub inputs: Vec<TIn>,
     pub opset: i64,
@@ -105,7 +108,11 @@ pub struct Case {
 
 impl Case {
     pub fn new(entry: &str, feature: &str, nodes: Vec<Node>, inputs: Vec<TIn>) -> Case {
-        Case { entry: entry.into(), feature: feature.into(), nodes, inputs, opset: vp_onnx::DEFAULT_OPSET }
+        Case { entry: entry.into(), feature: feature.into(), feature_op: None, nodes, inputs, opset: vp_onnx::DEFAULT_OPSET }
+    }
+    pub fn feature_for(mut self, op: &str) -> Case {
+        self.feature_op = Some(op.into());
+        self
     }
     pub fn opset(mut self, v: i64) -> Case {
         self.opset = v;
@@ -177,6 +184,7 @@ pub fn case_to_json(c: &Case) -> Json {
     json!({
         "entry": c.entry,
         "feature": c.feature,
+        "feature_op": c.feature_op,
         "opset": c.opset,
         "nodes": c.nodes.iter().map(|n| json!({
             "op_type": n.op_type, "domain": n.domain, "inputs": n.inputs, "outputs": n.outputs,
@@ -195,6 +203,7 @@ pub fn case_from_json(j: &Json) -> Case {
     Case {
         entry: s(&j["entry"]),
         feature: s(&j["feature"]),
+        feature_op: j["feature_op"].as_str().map(|x| x.to_string()),
         opset: j["opset"].as_i64().unwrap_or(vp_onnx::DEFAULT_OPSET),
         nodes: j["nodes"]
             .as_array()
@@ -360,7 +369,7 @@ fn actual_of(v: &Value) -> Option<Actual> {
         Value::Int32Tensor(t) => Actual { shape: t.shape().to_vec(), values: t.iter().map(|x| *x as f64).collect(), dtype: "i32" },
         Value::Int8Tensor(t) => Actual { shape: t.shape().to_vec(), values: t.iter().map(|x| *x as f64).collect(), dtype: "i8" },
         Value::UInt8Tensor(t) => Actual { shape: t.shape().to_vec(), values: t.iter().map(|x| *x as f64).collect(), dtype: "u8" },
-        Value::Sequence(_) => return None,
+        _ => return None,
     })
 }
 
@@ -508,10 +517,10 @@ pub struct Contradiction {
 }
 
 thread_local! {
-    static PARSE_CACHE: std::cell::RefCell<HashMap<String, Result<Option<PExpr>, String>>> = std::cell::RefCell::new(HashMap::new());
+    static PARSE_CACHE: std::cell::RefCell<HashMap<String, Result<Option<Vec<PExpr>>, String>>> = std::cell::RefCell::new(HashMap::new());
 }
 
-fn parse_cached(s: &str) -> Result<Option<PExpr>, String> {
+fn parse_cached(s: &str) -> Result<Option<Vec<PExpr>>, String> {
     PARSE_CACHE.with(|c| {
         let mut c = c.borrow_mut();
         if let Some(r) = c.get(s) {
@@ -581,21 +590,27 @@ fn compare(inf: &Inferred, act: &Actual, env: &[(String, i64)], st: &mut Stats) 
                     Dimension::Symbolic(s) => match parse_cached(s) {
                         Err(e) => vp_core::machinery_error(&format!("C10: cannot parse symbolic dim: {e}")),
                         Ok(None) => st.sym_dims_ambiguous_print += 1,
-                        Ok(Some(p)) => {
+                        Ok(Some(readings)) => {
+                            // The printout may have several structural readings; the claim is
+                            // judged only if every reading evaluates, and contradicted only
+                            // if no reading gives the executed size.
                             let get = |n: &str| env.iter().find(|(k, _)| k == n).map(|(_, v)| *v);
-                            match se::eval_pexpr(&p, &get) {
-                                Err(_) => st.sym_dims_unevaluable += 1,
-                                Ok(val) => {
-                                    st.sym_dim_claims += 1;
-                                    if val != act.shape[ax] as i64 {
-                                        return Some(Contradiction {
-                                            kind: "inferred symbolic dim evaluates to a different size than the executed dim",
-                                            detail: format!(
-                                                "axis {ax}: \"{s}\" = {val} under {:?}; inferred {}, executed shape {:?}",
-                                                env, inferred_string(inf), act.shape
-                                            ),
-                                        });
-                                    }
+                            let vals: Vec<Result<i64, se::Fail>> = readings.iter().map(|p| se::eval_pexpr(p, &get)).collect();
+                            if vals.iter().any(|v| v.is_err()) {
+                                st.sym_dims_unevaluable += 1;
+                            } else {
+                                st.sym_dim_claims += 1;
+                                if readings.len() > 1 {
+                                    st.sym_dims_ambiguous_print += 1;
+                                }
+                                if !vals.iter().any(|v| *v == Ok(act.shape[ax] as i64)) {
+                                    return Some(Contradiction {
+                                        kind: "inferred symbolic dim evaluates to a different size than the executed dim",
+                                        detail: format!(
+                                            "axis {ax}: \"{s}\" = {:?} under {:?}; inferred {}, executed shape {:?}",
+                                            vals.iter().map(|v| v.clone().unwrap()).collect::<Vec<_>>(), env, inferred_string(inf), act.shape
+                                        ),
+                                    });
                                 }
                             }
                         }
@@ -682,7 +697,11 @@ fn check_variant(c: &Case, v: &Variant, acc: &mut EntryAcc, double_load: bool) -
         a.shape.hash(&mut outcome);
         if let Some(con) = compare(i, a, &env, &mut acc.stats) {
             let op = &c.nodes[*node_idx].op_type;
-            let sig = format!("{op}: {} [{}]", con.kind, c.feature);
+            let feature = match &c.feature_op {
+                Some(fop) if fop != op => "general",
+                _ => c.feature.as_str(),
+            };
+            let sig = format!("{op}: {} [{}]", con.kind, feature);
             let detail = format!(
                 "entry {}; value {name} produced by {op}; {}; symbols {:?}; inputs {}",
                 c.entry,
@@ -710,6 +729,22 @@ fn check_variant(c: &Case, v: &Variant, acc: &mut EntryAcc, double_load: bool) -
 }
 
 fn record(acc: &mut EntryAcc, sig: String, case: impl FnOnce() -> (Json, String)) {
+    if let Ok(path) = std::env::var("C10_DUMP") {
+        // development aid: one line per violating variant
+        use std::io::Write;
+        let (c, d) = case();
+        if let Ok(mut fh) = std::fs::OpenOptions::new().create(true).append(true).open(path) {
+            let line = format!("{sig}\t{d}\t{}\n", c["case"]["inputs"]);
+            let _ = fh.write_all(line.as_bytes());
+        }
+        match acc.viol.get_mut(&sig) {
+            Some(e) => e.2 += 1,
+            None => {
+                acc.viol.insert(sig, (c, d, 1));
+            }
+        }
+        return;
+    }
     match acc.viol.get_mut(&sig) {
         Some(e) => e.2 += 1,
         None => {
